@@ -328,6 +328,10 @@ class Runner:
                 if st.absent: absent_decls.append(st.absent)
                 continue
             if not hits: raise Broken('check %s: stub pattern %s matches no function of the IR (inlined away / renamed?)' % (check.id, st.fn_re))
+            if len(hits) > 1 and st.optional:
+                # an optional (acceptance) stub stands for every instantiation of the flat ISO call it describes (e.g. double* and double const* sources): same recording
+                for h in hits: stubfns.append((st, h))
+                continue
             if len(hits) > 1 and not st.only_first: raise Broken('check %s: stub pattern %s matches %d functions: %s' % (check.id, st.fn_re, len(hits), [inst.dem[h] for h in hits][:4]))
             stubfns.append((st, hits[0]))
         gen = ll2c.Gen(m, arith, cut=GROUPS[check.group].cut + ['^' + re.escape(n) + '$' for _, n in stubfns])
@@ -373,7 +377,11 @@ class Runner:
                 if st.body: body.append(st.body)
                 if 'return' not in st.body: body.append('return %s;' % st.ret if st.ret else 'return;')
                 out.append('%s(%s){ %s }' % (g_.ct(sret, ll2c.cname(n)), ', '.join(ps) or 'void', ' '.join(body)))
-            return '\n'.join(out)
+            seen_ = set(); ded = []      # the same ghost may be declared by several stubs (one stub object matching several instantiations)
+            for ln in out:
+                if ln in seen_ and not ln.rstrip().endswith('}'): continue
+                seen_.add(ln); ded.append(ln)
+            return '\n'.join(ded)
         fcn = ll2c.cname(fn)
         # contract text
         lines = []; linemap = {}
